@@ -656,16 +656,19 @@ func first(a, _ []byte) []byte { return a }
 //@   opt kind alpha
 //@   opt casts on
 //@   opt extent on
+//@   let rootTag0 = t.root.tag
 //@   requires WF1in_alpha(t) && sizeSane(t)
 //@   assume_at_call (*nodeRef).deleteChild : implies(isMerge(*ptr) && survT(*ptr, b) != 4, survP(*ptr, b) != ptr.obj && as(node, survP(*ptr, b)).prefixLen + as(node4, (*ptr).pointer).prefixLen + 1 < 4294967296)
 //@   ensures[wf] WF1_alpha(t)
 //@   ensures[size] t.size == old(t.size) - ite(result, 1, 0)
+//@   ensures[empty_is_initial] implies(result && rootTag0 == 4, t.root.pointer == nil && t.root.tag == 0)
 //@   ensures[noop_frame] implies(!result, frame())
 //@   pathkey ret
 //@   ensures[arg_bytes_unchanged] reveal(key.obj) && sameBytes(key, 0, blen(key.obj))
 //@   loop 1 (depth)
 //@     invariant 0 <= depth && depth <= len(keyS)
 //@     invariant n.pointer == (*ref).pointer && n.tag == (*ref).tag
+//@     invariant implies(rootTag0 == 4, ref.obj == t)
 //@     invariant liveRef(n)
 //@     invariant slotOf(ref, t) && ref.obj != n.pointer
 //@     invariant n.tag != 4 || ref.obj == t
@@ -675,14 +678,17 @@ func first(a, _ []byte) []byte { return a }
 //@   opt kind $KIND
 //@   opt casts on
 //@   opt extent on
+//@   let rootTag0 = t.root.tag
 //@   requires WF1in_$KIND(t) && sizeSane(t)
 //@   assume_at_call (*nodeRef).deleteChild : implies(isMerge(*ptr) && survT(*ptr, b) != 4, survP(*ptr, b) != ptr.obj && as(node, survP(*ptr, b)).prefixLen + as(node4, (*ptr).pointer).prefixLen + 1 < 4294967296)
 //@   ensures[wf] WF1_$KIND(t)
 //@   ensures[size] t.size == old(t.size) - ite(result, 1, 0)
+//@   ensures[empty_is_initial] implies(result && rootTag0 == 4, t.root.pointer == nil && t.root.tag == 0)
 //@   ensures[noop_frame] implies(!result, frame())
 //@   loop 1 (depth)
 //@     invariant 0 <= depth && depth <= len(keyS)
 //@     invariant n.pointer == (*ref).pointer && n.tag == (*ref).tag
+//@     invariant implies(rootTag0 == 4, ref.obj == t)
 //@     invariant liveRef(n)
 //@     invariant slotOf(ref, t) && ref.obj != n.pointer
 //@     invariant n.tag != 4 || ref.obj == t
@@ -817,7 +823,7 @@ func first(a, _ []byte) []byte { return a }
 
 //@ spec LeafOK_collation(o) = as(collateLeafNode, o).key.obj != nil && allocated(as(collateLeafNode, o).key.obj) && 0 <= as(collateLeafNode, o).key.idx && as(collateLeafNode, o).key.idx + as(collateLeafNode, o).keyLen <= blen(as(collateLeafNode, o).key.obj) && as(collateLeafNode, o).colKey.obj != nil && allocated(as(collateLeafNode, o).colKey.obj) && 0 <= as(collateLeafNode, o).colKey.idx && as(collateLeafNode, o).colKey.idx + as(collateLeafNode, o).colKeyLen <= blen(as(collateLeafNode, o).colKey.obj)
 //@ spec HeapOK_collation() = forallref(o, implies(inT(o) && allocated(o) && o != nil && !pooled(o), NodeOK(o) && implies(atype(o) == leafT(), LeafOK_collation(o))))
-//@ spec WF1_collation(t) = t != nil && allocated(t) && atype(t) == typeid(collationSortedTree) && leafT() == typeid(collateLeafNode) && rootOK(t.root) && HeapOK_collation()
+//@ spec WF1_collation(t) = t != nil && allocated(t) && atype(t) == typeid(collationSortedTree) && leafT() == typeid(collateLeafNode) && rootOK(t.root) && HeapOK_collation() && t.cok.buf != nil && t.cok.c != nil
 //@ spec WF1in_collation(t) = WF1_collation(t) && LinkedLive() && rootLive(t.root)
 
 //@ func (*collationSortedTree[K,V]).Search
@@ -840,14 +846,17 @@ func first(a, _ []byte) []byte { return a }
 //@   opt kind collation
 //@   opt casts on
 //@   opt extent on
+//@   let rootTag0 = t.root.tag
 //@   requires WF1in_collation(t) && sizeSane(t)
 //@   assume_at_call (*nodeRef).deleteChild : implies(isMerge(*ptr) && survT(*ptr, b) != 4, survP(*ptr, b) != ptr.obj && as(node, survP(*ptr, b)).prefixLen + as(node4, (*ptr).pointer).prefixLen + 1 < 4294967296)
 //@   ensures[wf] WF1_collation(t)
 //@   ensures[size] t.size == old(t.size) - ite(result, 1, 0)
+//@   ensures[empty_is_initial] implies(result && rootTag0 == 4, t.root.pointer == nil && t.root.tag == 0)
 //@   ensures[noop_frame] implies(!result, frameExcept("collationSortedTree.cok.src"))
 //@   loop 1 (depth)
 //@     invariant 0 <= depth && depth <= len(colKey)
 //@     invariant n.pointer == (*ref).pointer && n.tag == (*ref).tag
+//@     invariant implies(rootTag0 == 4, ref.obj == t)
 //@     invariant liveRef(n)
 //@     invariant slotOf(ref, t) && ref.obj != n.pointer
 //@     invariant n.tag != 4 || ref.obj == t
